@@ -48,7 +48,9 @@ RULE = ("solutions built with the repository's own constructors: every admissibl
         "time, processor name omitted), processor name 'auto', an id given twice at assembly, read-only queries before writing "
         "(incl. create_dynamic_obstacle), one writer reused for a list of dump / write_to_file calls in varying order, default file name and "
         "default output path, overwrite True/False on fresh and existing files (a refused overwrite must leave a readable document), "
-        "fromstring on str and on bytes.  Plus constructor calls that must be rejected and mutated documents "
+        "fromstring on str and on bytes; in 35% of the cases every document / file is read three times - two results alive, one of them "
+        "edited in place throughout (scenario id fields, metadata, ids, types, costs, every state value incl. the position array, state "
+        "list) - and every other result must still be the written solution.  Plus constructor calls that must be rejected and mutated documents "
         "(dropped/duplicated/renamed elements, bad number text, reordered trajectories, wrong ids) for the reader's error "
         "branches and the validator.  non-trivial = every case; distinct = distinct canonical JSON of the case")
 ASSUMPTIONS = [
@@ -76,7 +78,7 @@ REQUIRED_BUCKETS = ["single", "cooperative", "type:PM", "type:ST", "type:KS", "t
                     "post:model", "post:traj", "post:append_state", "post:edit_state", "post:same_list", "post:drop", "post:append_pps",
                     "post:init_step", "post:translate_rotate", "post:fail_ct", "post:fail_cost", "post:fail_model", "post:fail_traj",
                     "numpy-scalars", "ctor-defaults", "duplicate-id", "processor-auto", "queries-first", "writer-reused",
-                    "fromstring-bytes", "default-filename", "default-output-path", "overwrite-refused"]
+                    "fromstring-bytes", "default-filename", "default-output-path", "overwrite-refused", "reread", "reread-edited"]
 WORKERS = {"quick": 1, "thorough": 8}
 
 XSD_PATH = os.path.join(REPO, "commonroad", "scenario_definition", "xml_definition_files", "CommonRoadSolution_schema.xsd")
@@ -171,9 +173,10 @@ DIMENSIONS = {
     "CommonRoadSolutionWriter.write_to_file(overwrite)": "True/False on a fresh and on an existing file (overwrite-refused: the earlier document must still read back)",
     "CommonRoadSolutionWriter.write_to_file(pretty)": "True / False",
     # --- reader
-    "CommonRoadSolutionReader.open()": "file-path",
+    "CommonRoadSolutionReader.open()": "file-path; repeated on one file with an earlier result edited (reread)",
     "CommonRoadSolutionReader.open(filepath)": "path of the written file",
-    "CommonRoadSolutionReader.fromstring()": "every dump; mutated documents",
+    "CommonRoadSolutionReader.fromstring()": "every dump; mutated documents; called repeatedly on one document with an earlier result edited in "
+                                             "place and another still alive (reread)",
     "CommonRoadSolutionReader.fromstring(file)": "str and utf-8 bytes (fromstring-bytes)",
     # --- Trajectory (what a solution holds)
     "Trajectory.__init__(initial_time_step)": "0, small, 2^31-1 and beyond; mismatching the first state in the reject stream",
@@ -423,6 +426,7 @@ def gen_case(ctx, force_combo=None):
     case["dup"] = {"at": r.randrange(n), "vtype": r.randint(1, 4)} if r.random() < 0.08 else None
     case["post"] = gen_post(r, case) if r.random() < 0.45 else []
     case["queries"] = r.random() < 0.3
+    case["reread"] = r.random() < 0.35      # read, edit the result, read again; two results alive at once
     case["reuse"] = r.random() < 0.4
     calls = [{"op": "dump", "pretty": case["pretty"], "bytes": False}]
     for _ in range(r.choice([0, 0, 1, 2, 3])):
@@ -1227,6 +1231,64 @@ def blame_types(sol, pretty):
     return sorted(out) or ["solution"]
 
 
+def scramble(solution, r):
+    """edit EVERYTHING reachable from a solution the reader returned, in place, through public attributes: afterwards it equals
+    no solution that was written.  (Only this result may change: other results of the reader, past or future, must not.)"""
+    import numpy as np
+    from commonroad.common.solution import CostFunction, VehicleType
+    sid = solution.scenario_id
+    sid.configuration_id = (sid.configuration_id or 0) + r.randint(1, 5)
+    sid.scenario_version = "2018b" if sid.scenario_version == "2020a" else "2020a"
+    sid.map_id = sid.map_id + r.randint(1, 9)
+    sid.map_name = "Edited"
+    sid.cooperative = not sid.cooperative
+    sid.country_id = "ESP" if sid.country_id != "ESP" else "ZAM"
+    if sid.obstacle_behavior is not None:
+        sid.obstacle_behavior = "I" if sid.obstacle_behavior != "I" else "S"
+        sid.prediction_id = 77
+    solution.computation_time = 4242.5
+    solution.processor_name = "edited"
+    solution.date = datetime(1999, 12, 31, 23, 59, 58)
+    for p in solution.planning_problem_solutions:
+        p.planning_problem_id = p.planning_problem_id + 1000 + r.randint(0, 9)
+        p.vehicle_type = VehicleType(p.vehicle_type.value % 4 + 1)
+        p.cost_function = CostFunction.JB1 if p.cost_function != CostFunction.JB1 else CostFunction.WX1
+        for st in p.trajectory.state_list:
+            for a in st.attributes:
+                v = getattr(st, a)
+                if a == "time_step" or v is None:
+                    continue
+                if isinstance(v, np.ndarray):
+                    v[:] = 4242.25          # the array itself, in place
+                else:
+                    setattr(st, a, 4242.25)
+        p.trajectory.state_list.reverse()
+        p.trajectory.state_list.append(p.trajectory.state_list[0])
+    solution.planning_problem_solutions = list(reversed(solution.planning_problem_solutions))[:1]
+
+
+def reread(ctx, case, sol, read, n_call):
+    """history across reader calls: two results alive at once, one of them edited, then the same document read again - every
+    result must still be the written solution (no state shared between results of separate reader calls)"""
+    import random
+    r = random.Random((case.get("mutseed", 0), n_call).__hash__())
+    ctx.tag("reread")
+    a, b = call(read), call(read)
+    if a[0] != "ok" or b[0] != "ok":
+        return      # (a failing read is reported by the caller)
+    res = call(scramble, a[1], r)
+    if res[0] != "ok":
+        ctx.tag("reread-edit-refused")
+        return
+    ctx.tag("reread-edited")
+    oracle_roundtrip(ctx, case, sol, b[1], "reread-alive")
+    c = call(read)
+    if c[0] == "ok":
+        oracle_roundtrip(ctx, case, sol, c[1], "reread")
+    else:
+        ctx.fail(f"C14/reread/raises-{c[1]}", f"reading the same document again after editing an earlier result raises {c[2]}", case)
+
+
 def default_calls(case):
     """stored cases from before the call lists existed"""
     calls = [{"op": "dump", "pretty": case["pretty"], "bytes": False}]
@@ -1271,6 +1333,9 @@ def run_calls(ctx, case, sol):
                     ctx.fail(f"C14/fromstring/raises-{rd[1]}/{t}", f"reading the written document raises {rd[2]}", case)
             else:
                 oracle_roundtrip(ctx, case, sol, rd[1], "fromstring")
+                if case.get("reread"):
+                    arg = doc.encode("utf-8") if c.get("bytes") and isinstance(doc, str) else doc
+                    reread(ctx, case, sol, lambda: CommonRoadSolutionReader.fromstring(arg), n_call)
             oracle_schema(ctx, case, sol, doc)
             if n_call == 0:
                 first = (doc, rd)
@@ -1313,6 +1378,8 @@ def run_calls(ctx, case, sol):
                 ctx.fail(f"C14/open/raises-{ro[1]}/{t}", f"opening the written file raises {ro[2]}", case)
         else:
             oracle_roundtrip(ctx, case, sol, ro[1], "open")
+            if case.get("reread"):
+                reread(ctx, case, sol, lambda: CommonRoadSolutionReader.open(path), n_call)
     if wdir is not None:
         import shutil
         shutil.rmtree(wdir, ignore_errors=True)
@@ -1487,7 +1554,7 @@ def shrink(case, key):
             del cand["calls"][i]
             if still(cand):
                 cur = cand
-    for k, v in (("queries", False), ("reuse", False)):
+    for k, v in (("queries", False), ("reuse", False), ("reread", False)):
         cand = copy.deepcopy(cur)
         cand[k] = v
         if still(cand):
